@@ -43,7 +43,8 @@ ACCESSORS = ["convert", "convert_array", "manager", "manager_nm", "hamiltonian",
              "molecule_set", "mode_ctor", "mode_set", "coupling", "coupling_matrix", "corfce_reorg", "specdens_reorg",
              "agg_hamiltonian", "rwa_skeleton", "freqaxis_to_timeaxis", "length", "transition_width",
              "diabatic_coupling", "adiabatic_coupling", "cutoff_coupling", "state_energy", "abs_rwa", "cfm_reorg",
-             "hierarchy_lam", "ham_diagonalize", "corfce_values_reorg", "cfm_direct"]
+             "hierarchy_lam", "ham_diagonalize", "corfce_values_reorg", "cfm_direct", "undiagonalize_remainder",
+             "specdens_copy"]
 
 CALLS = ["build1", "build2", "build_modes", "rebuild", "diagonalize", "build_raises", "mol_hamiltonian", "mol_dipole",
          "mol_sbi", "rt_stR", "rt_stR_td", "rt_stF", "rt_cRF", "rt_unknown_raises", "redfield_rates", "foerster_rates",
@@ -98,6 +99,18 @@ def _call(draw):
 
 def strategy(tier):
     return st.one_of(_matrix(), _matrix(), _program(), _call())
+
+
+def grid(tier):
+    """every accessor and every registered call at a few fixed unit pairs (so that each of them is exercised at every
+    seed), before the generated cases"""
+    pairs = [("1/cm", "eV"), ("eV", "THz"), ("meV", "1/cm"), ("int", "1/cm")]
+    if tier == "thorough":
+        pairs = pairs + [("THz", "J"), ("Ha", "meV"), ("1/cm", "int")]
+    for acc in ACCESSORS:
+        for k, (u1, u2) in enumerate(pairs):
+            yield {"kind": "matrix", "acc": acc, "u1": u1, "u2": u2, "v": 137 + 911 * k, "v2": 41 - 30 * k,
+                   "l1": LUNITS[(k + 1) % len(LUNITS)], "l2": LUNITS[(k + 3) % len(LUNITS)], "nm": 400 + 150 * k}
 
 
 def check_case(case, ctx):
@@ -361,6 +374,27 @@ def _check_matrix(case, ctx):
             with qr.energy_units(u2):
                 got = [cm.get_reorganization_energy(0, 0), cm.get_reorganization_energy(1, 1)]
             cmp("conversion", got, orc.convert(numpy.array([lam, lam + 7.0]), "1/cm", u2))
+        elif acc == "undiagonalize_remainder":
+            # weak couplings split off, diagonalised and restored with the remainder while other units are current
+            c = abs(float(case["v2"])) + 1.0
+            M = numpy.array([[0.0, 0.0, 0.0, 0.0], [0.0, v, 3 * c, 0.5 * c], [0.0, 3 * c, v + 5.0, 0.0],
+                             [0.0, 0.5 * c, 0.0, v + 9.0]])
+            with qr.energy_units(u1):
+                H = qr.Hamiltonian(data=M.copy())
+                H.remove_cutoff_coupling(c)
+            with qr.energy_units(u2):
+                H.diagonalize()
+                H.undiagonalize(with_remainder=True)
+            cmp("stored-value", H._data, orc.to_internal(M, u1))
+        elif acc == "specdens_copy":
+            ta = qr.TimeAxis(0.0, 60, 2.0)
+            lam = float(1 + case["v"] % 300)
+            with qr.energy_units("1/cm"):
+                f = qr.SpectralDensity(ta, dict(ftype="OverdampedBrownian", reorg=lam, cortime=50.0, T=300.0, matsubara=5))
+            with qr.energy_units(u1):
+                g = f.copy()
+            cmp("stored-value", g.lamb, orc.to_internal(lam, "1/cm"))
+            cmp("stored-value", numpy.array(g.data), numpy.array(f.data))
         elif acc == "ham_diagonalize":
             M = numpy.array([[0.0, 0.0, 0.0], [0.0, v, float(case["v2"])], [0.0, float(case["v2"]), v + 5.0]])
             with qr.energy_units(u1):
